@@ -1,109 +1,182 @@
 """C06 — server-initiated acknowledgements (K4)."""
 from .. import common as C
 from .. import server_sim as S
+from .. import server_gen as SG
+from .. import pycodec
+from .. import gen as G
 
 LEVEL = 'proof'
 
 PROFILE = {
     'weights': {'open': 2, 'connect': 6, 'client_disconnect': 1, 'event': 1, 'ack': 14, 'emit': 1, 'emit_cb': 12,
-                'call': 3, 'api_disconnect': 1, 'enter': 0, 'leave': 0, 'close': 0, 'rooms': 0, 'lost': 2,
+                'call': 4, 'api_disconnect': 1, 'enter': 0, 'leave': 0, 'close': 0, 'rooms': 0, 'lost': 2,
                 'partial_binary': 0},
     'connect_outcomes': {'accept': 9, 'false': 1, 'refuse': 0, 'raise': 0},
     'burst_acks': True,
 }
 
 
+def accepts(style, n):
+    """does the application callback's signature take n positional arguments"""
+    a = (style or {}).get('arity', '*')
+    if a == '*':
+        return True
+    if a == 'opt':
+        return n <= 3
+    return n == a
+
+
 def oracle(cfg, trace, residue):
+    return judge(cfg, trace)
+
+
+def judge(cfg, trace, stats=None):
+    """The statement, judged on what the real server did: every callback registered for a client (emit(callback=) or
+    the internal one of call()) is invoked when THAT client connection acknowledges THAT id — once, with exactly the
+    acknowledged arguments, whatever the callback raises and whatever happened to other ids (other call()s timing
+    out, other callbacks failing) — and never otherwise.  Ids are followed on the wire."""
     fails = []
+    stats = stats if stats is not None else {}
     conn = {}                 # (tid, ns) -> sid
-    out = {}                  # (tid, ns, id) -> token       outstanding callbacks, from the wire
+    out = {}                  # (tid, ns, id) -> (token, registration number)    outstanding callbacks, from the wire
+    styles = {}               # user token -> signature / ending of the application callback
     cf = S.ClientFrames()
+    seq = [0, 0]              # registrations, call()s
+    calldone = {}             # call token -> acknowledged arguments
+    late = {}                 # (tid, ns, id) -> why it is interesting that it is still delivered
+
+    def bump(key, n=1):
+        stats[key] = stats.get(key, 0) + n
 
     def handle_wire(tid, q, tok):
         if q['type'] == 0 and isinstance(q['data'], dict):
             conn[(tid, q['ns'])] = q['data']['sid']
         elif q['type'] == 1:
-            conn.pop((tid, q['ns']), None)
-            for k in [k for k in out if k[0] == tid and k[1] == q['ns']]:
-                del out[k]
+            end_session(tid, q['ns'])
         elif q['type'] in (2, 5) and q['id'] is not None:
             key = (tid, q['ns'], q['id'])
             if key in out:
                 fails.append((None, 'ack id %r reused while still outstanding for %s on %s' % (q['id'], tid, q['ns'])))
-            out[key] = tok
+            seq[0] += 1
+            out[key] = (tok, seq[0])
 
     def end_session(t, ns):
         conn.pop((t, ns), None)
         for k in [k for k in out if k[0] == t and k[1] == ns]:
             del out[k]
+            late.pop(k, None)
 
-    def client_packet(op, im, allowed):
+    def client_packet(op, allowed):
         """processes what the client sent in `op`; `allowed` collects (tok, args) that may fire"""
         p = cf.feed(op)
         if isinstance(p, dict) and p['type'] in (3, 6) and isinstance(p['data'], list):
             key = (op['t'], p['ns'], p['id'])
             if key in out and (op['t'], p['ns']) in conn:
-                allowed.append((out.pop(key), list(p['data'])))
+                tok = out.pop(key)[0]
+                why = late.pop(key, None)
+                if isinstance(tok, str):
+                    if tok in calldone:
+                        bump('acks_for_a_call_that_had_already_timed_out')
+                    calldone[tok] = list(p['data'])
+                else:
+                    allowed.append((tok, list(p['data'])))
+                    if why:
+                        bump(why)
         elif isinstance(p, dict) and p['type'] == 1:
             end_session(op['t'], p['ns'])
 
-    for op, im, _mo in trace:
-        allowed = []
-        if op['op'] in ('frame', 'frameval'):
-            client_packet(op, im, allowed)
-        elif op['op'] == 'burst':
+    def process(op, im, allowed):
+        """one op, top level or issued while a call() waits: the client's / application's part, then what the server
+        put on the wire for it"""
+        k = op['op']
+        if k in ('frame', 'frameval'):
+            client_packet(op, allowed)
+        elif k == 'burst':
             for f in op['frames']:
-                client_packet(f, im, allowed)
-        elif op['op'] == 'call':
-            pass
-        elif op['op'] == 'lost':
+                client_packet(f, allowed)
+        elif k == 'lost':
             cf.drop(op['t'])
-            for k in [k for k in conn if k[0] == op['t']]:
-                end_session(*k)
-        elif op['op'] == 'disconnect':
-            for k in [k for k, v in conn.items() if v == op['sid'] and k[1] == op['ns']]:
-                end_session(*k)
-        tok = op.get('cb') if op['op'] == 'emit' else ('call' if op['op'] == 'call' else None)
+            for key in [key for key in conn if key[0] == op['t']]:
+                end_session(*key)
+        elif k == 'disconnect':
+            for key in [key for key, v in conn.items() if v == op['sid'] and key[1] == op['ns']]:
+                end_session(*key)
+        if k == 'call':
+            return do_call(op, im, allowed)
+        tok = None
+        if k == 'emit' and op.get('cb') is not None:
+            tok = op['cb']
+            styles[tok] = op.get('cb_style')
         for tid, q in S.sent_packets(im):
             handle_wire(tid, q, tok)
-        if op['op'] == 'call':
-            # nested ops ran while call() was waiting
-            got = None
-            for o in (op['during'] if cfg['asyncHandlers'] else []):
-                if o['op'] in ('frame', 'frameval'):
-                    a2 = []
-                    client_packet(o, im, a2)
-                    for t2, args in a2:
-                        if t2 == 'call':
-                            got = args
-                        else:
-                            allowed.append((t2, args))
-                elif o['op'] == 'lost':
-                    cf.drop(o['t'])
-                    for k in [k for k in conn if k[0] == o['t']]:
-                        end_session(*k)
-            if not cfg['asyncHandlers']:
-                if im['exc'] != 'RuntimeError':
-                    fails.append((None, 'call() with async_handlers=False did not raise RuntimeError'))
-            elif got is None:
-                if im['exc'] != 'TimeoutError':
-                    fails.append((None, 'call() without acknowledgement returned %r / raised %r' % (im['result'], im['exc'])))
-            else:
-                want = None if len(got) == 0 else (got[0] if len(got) == 1 else tuple(got))
-                have = im['result']
-                if im['exc'] or not C.same(_l(have), _l(want)):
-                    fails.append((None, 'call() returned %r (exc %r), acknowledged arguments were %r' % (have, im['exc'], got)))
-        # every callback that fired must be allowed, with exactly the acknowledged arguments, once
-        fired = list(im['callbacks'])
-        for tokf, args in fired:
+
+    def do_call(op, im, allowed):
+        seq[1] += 1
+        me = 'call%d' % seq[1]
+        if not cfg['asyncHandlers']:
+            if im['exc'] != 'RuntimeError':
+                fails.append((None, 'call() with async_handlers=False did not raise RuntimeError'))
+            return
+        nested = im.get('nested') or []
+        # nested[0]: what call() itself sent before it started to wait; nested[1 + i]: during[i]
+        for tid, q in (S.sent_packets(nested[0]) if nested else []):
+            handle_wire(tid, q, me)
+        if stats is not None and len(nested) > 1 and any(o['op'] in ('emit', 'call') for o in op['during']):
+            bump('calls_with_emits_or_calls_to_the_same_client_issued_while_waiting')
+        for o, no in zip(op['during'], nested[1:]):
+            process(o, no, allowed)
+        got = calldone.get(me)
+        if got is None:
+            calldone[me] = None        # timed out; an acknowledgement that comes later is dropped silently
+            if im['exc'] != 'TimeoutError':
+                fails.append((None, 'call() without acknowledgement returned %r / raised %r' % (im['result'], im['exc'])))
+            mine = [key for key, v in out.items() if v[0] == me]
+            for key in mine:
+                for k2, v2 in out.items():
+                    if k2[:2] == key[:2] and k2 != key:
+                        late[k2] = ('acks_delivered_after_an_OLDER_call_to_the_same_client_timed_out'
+                                    if v2[1] > out[key][1] else
+                                    'acks_delivered_after_a_YOUNGER_call_to_the_same_client_timed_out')
+                        bump('callbacks_outstanding_when_another_call_to_the_same_client_timed_out')
+        else:
+            want = None if len(got) == 0 else (got[0] if len(got) == 1 else tuple(got))
+            have = im['result']
+            if im['exc'] or not C.same(_l(have), _l(want)):
+                fails.append((None, 'call() returned %r (exc %r), acknowledged arguments were %r' % (have, im['exc'], got)))
+
+    for op, im, _mo in trace:
+        allowed = []
+        process(op, im, allowed)
+        acked = list(allowed)
+        want = []
+        # every callback the library called must be allowed, with exactly the acknowledged arguments, once
+        for tokf, args in im['callbacks']:
             hit = [a for a in allowed if a[0] == tokf and C.same(_l(a[1]), _l(list(args)))]
             if not hit:
-                fails.append((None, 'callback %r fired with %r but no matching acknowledgement from the right client was processed (op %s)' % (tokf, args, op['op'])))
+                fails.append((None, 'callback %r was called with %r but no matching acknowledgement from the right client '
+                                    'was processed (op %s; acknowledged here: %r)' % (tokf, args, op['op'], acked)))
             else:
                 allowed.remove(hit[0])
+                if accepts(styles.get(tokf), len(hit[0][1])):
+                    want.append(hit[0])
         for tokf, args in allowed:
-            if tokf != 'call':
-                fails.append((None, 'acknowledgement for callback %r was not delivered to it' % (tokf,)))
+            fails.append((None, 'the acknowledgement %r for callback %r was not delivered to it' % (args, tokf)))
+        # the application function behind it: its body runs once per acknowledgement its signature takes, with exactly
+        # the acknowledged arguments, and not at all when the signature does not take them
+        for t, a in acked:
+            st = styles.get(t) or {}
+            bump('ack_to_callback.' + ('signature_does_not_take_the_acknowledged_arguments' if not accepts(st, len(a))
+                                       else 'fits.' + {None: 'returns', 'TypeError': 'raises_TypeError_from_its_body'}.get(
+                                           st.get('raises'), 'raises_another_class')))
+        for tokf, args in im.get('cb_entered', []):
+            hit = [a for a in want if a[0] == tokf and C.same(_l(a[1]), _l(list(args)))]
+            if not hit:
+                fails.append((None, 'the body of callback %r (signature %r) ran with %r; acknowledged in this step: %r'
+                              % (tokf, styles.get(tokf), args, acked)))
+            else:
+                want.remove(hit[0])
+        for tokf, args in want:
+            fails.append((None, 'callback %r was called for the acknowledgement %r but its body never ran' % (tokf, args)))
     return fails
 
 
@@ -115,7 +188,14 @@ def _l(v):
     return v
 
 
+_CTX = [None]
+
+
 def nontrivial(cfg, trace):
+    stats = {}
+    judge(cfg, trace, stats)
+    for key, v in stats.items():
+        _CTX[0].count(key, v)
     cbs = sum(len(im['callbacks']) for _, im, _ in trace)
     acks = sum(1 for op, _, _ in trace if op['op'] == 'frame' and op['text'][:1] in '36')
     if cbs >= 2 and acks > cbs:
@@ -123,18 +203,130 @@ def nontrivial(cfg, trace):
     return None
 
 
+# ---------------------------------------------------------------- generation (on top of the K4 scenario generator)
+
+ARITIES = {'*': 8, 'opt': 2, 0: 2, 1: 4, 2: 3, 3: 1}
+ENDINGS = {None: 11, 'TypeError': 4, 'HandlerError': 2, 'ValueError': 1, 'KeyError': 1, 'AttributeError': 1}
+
+
+def gen_style(rng):
+    return {'arity': SG.weighted(rng, ARITIES), 'raises': SG.weighted(rng, ENDINGS)}
+
+
+def _ack_ops(rng, t, ns, i):
+    args = [G.gen_value(rng, 1, 0.2) for _ in range(rng.randint(0, 3))]
+    return [{'op': 'frame', 't': t, 'text': f} if isinstance(f, str) else {'op': 'frameval', 't': t, 'v': f}
+            for f in pycodec.encode(3, ns, i, args)]
+
+
 def hook(sc, cfg):
-    if sc.rng.random() < 0.6:
+    rng = sc.rng
+    if rng.random() < 0.6:
         cfg['asyncHandlers'] = True
+    sc.last_id = {}           # (t, ns) -> last ack id the server used towards the session now connected there
+    base_learn, base_emit, base_call = sc.learn, sc.g_emit, sc.g_call
+
+    def learn(op, obs):
+        base_learn(op, obs)
+        for tid, frames in obs['sends'].items():
+            try:
+                pkts = pycodec.decode_stream(frames)
+            except Exception:   # noqa
+                continue
+            for p in pkts:
+                if p['type'] == 0:
+                    sc.last_id[(tid, p['ns'])] = 0
+                elif p['type'] in (2, 5) and p['id'] is not None:
+                    sc.last_id[(tid, p['ns'])] = p['id']
+        for key in [tuple(k) for k in op.get('_acked', [])]:
+            if key in sc.outstanding:
+                sc.outstanding.remove(key)
+                sc.used_ack.append(key)
+
+    def g_emit(cb=False):
+        op = base_emit(cb=cb)
+        if op is not None and op.get('cb') is not None:
+            op['cb_style'] = gen_style(rng)
+        return op
+
+    def inner_emit(ns, sid):
+        op = {'op': 'emit', 'ev': rng.choice(SG.EVENTS), 'data': SG.gen_ret(rng), 'ns': ns, 'to': {'one': sid},
+              'skip': [], 'cb': sc.next_cb, 'cb_style': gen_style(rng)}
+        sc.next_cb += 1
+        return op
+
+    def g_call():
+        """call() to a client; while it waits, the application emits with callbacks / issues further call()s to the
+        SAME client, and the client acknowledges some of the ids while the call still waits, some after it has
+        returned (timed out, unless its own id was among the former), some never"""
+        if rng.random() < 0.3 or not sc.conn:
+            return base_call()
+        (t, ns), sid = rng.choice(list(sc.conn.items()))
+        nxt = sc.last_id.get((t, ns), 0) + 1         # the id the server is expected to use next for this session
+        unacked = [nxt]                              # the call's own id first
+        during, acked = [], []
+
+        def maybe_ack(p):
+            if unacked and rng.random() < p:
+                i = unacked.pop(rng.randrange(len(unacked)))
+                acked.append([t, ns, i])
+                return _ack_ops(rng, t, ns, i)
+            return []
+
+        for _ in range(rng.randint(1, 3)):
+            r = rng.random()
+            nxt += 1
+            if r < 0.7:
+                during.append(inner_emit(ns, sid))
+                unacked.append(nxt)
+            elif r < 0.8 and len(sc.conn) > 1:
+                # ... to another session (its ids are its own)
+                (t2, ns2), sid2 = rng.choice([kv for kv in sc.conn.items() if kv[0] != (t, ns)])
+                during.append(inner_emit(ns2, sid2))
+                nxt -= 1
+            else:
+                # a second call() to the same client while the first one waits
+                inner = []
+                own = nxt
+                r2 = rng.random()
+                if r2 < 0.3:
+                    inner += _ack_ops(rng, t, ns, own)               # answered: returns while the outer one waits
+                    acked.append([t, ns, own])
+                elif r2 < 0.5:
+                    nxt += 1
+                    inner.append(inner_emit(ns, sid))
+                    unacked += [own, nxt]
+                    inner += maybe_ack(0.5)
+                else:
+                    unacked.append(own)                              # times out before the outer one does
+                    inner += maybe_ack(0.3)
+                during.append({'op': 'call', 'ev': rng.choice(SG.EVENTS), 'data': SG.gen_ret(rng), 'ns': ns,
+                               'sid': sid, 'during': inner})
+            during += maybe_ack(0.3)
+        after = []
+        rng.shuffle(unacked)
+        for _ in range(len(unacked)):
+            after += maybe_ack(0.75)
+        sc.pending_frames = after + sc.pending_frames
+        return {'op': 'call', 'ev': rng.choice(SG.EVENTS), 'data': SG.gen_ret(rng), 'ns': ns, 'sid': sid,
+                'during': during, '_acked': acked}
+
+    sc.learn, sc.g_emit, sc.g_call = learn, g_emit, g_call
 
 
 def run(ctx):
+    _CTX[0] = ctx
     C.proof_step(ctx, ['call(): the wait primitive (eio.create_event().wait) is scripted: the nested inputs run while the caller waits'])
     C.audit_extra(ctx, 'GlueServer', ['call_timeouts'])
     S.run_cases(ctx, PROFILE, ctx.scale(150, 3000), 70, oracle=oracle, nontrivial=nontrivial, gen_hook=hook)
     ctx.coverage['rule'] = ('emits with callbacks / call() to individual clients on several namespaces interleaved with ACK and '
                             'BINARY_ACK packets from any client with correct, duplicate, never-issued, other-client, '
-                            'other-namespace and 0 ids, disconnects and reconnects in between; both server families + model; '
+                            'other-namespace and 0 ids, disconnects and reconnects in between; application callbacks with '
+                            'fixed signatures (0-3 parameters, optional parameters, *args) that the acknowledged argument '
+                            'count fits or not, returning or raising (TypeError from their own body among the classes): the '
+                            'library\'s call attempts and the entries into the body are both recorded; while a call() waits the '
+                            'application emits with callbacks and issues further call()s to the same client, acknowledged '
+                            'while it waits / after it timed out / never; both server families + model; '
                             'non-trivial = >=2 callbacks delivered and more ACK frames than deliveries')
 
 
